@@ -24,6 +24,7 @@ def plan(ctx):
     from checks.common import corpus
     n = 40 if tier == "quick" else 2500
     seqs = [("retry%d" % i, gen_proc.retry_history(rng)) for i in range(n)]
+    seqs += [("probe%d" % i, gen_proc.retry_history(rng, probe=True)) for i in range(n // 2)]
     seqs += [("h%d" % i, gen_proc.history(rng, profile=rng.choice(["mixed", "nofatal"]))) for i in range(n // 2)]
     from checks import gen_containers as gc, gen_metrics as gm
     for i in range(n):
